@@ -58,7 +58,14 @@ fn kind_name(k: Kind) -> &'static str {
 
 fn file_of(dir: &Path, fd: i32, path: Option<&Path>) -> String {
     let p = match path {
-        Some(p) => p.to_path_buf(),
+        Some(p) => {
+            // hook sites pass the path as the store built it (possibly relative / not canonical)
+            let parent = p.parent().map(|x| x.canonicalize().unwrap_or_else(|_| x.to_path_buf()));
+            match (parent, p.file_name()) {
+                (Some(par), Some(name)) => par.join(name),
+                _ => p.to_path_buf(),
+            }
+        }
         None => std::fs::read_link(format!("/proc/self/fd/{fd}")).unwrap_or_else(|_| PathBuf::from(format!("fd{fd}"))),
     };
     if p == dir {
